@@ -1,5 +1,5 @@
 ---------------------------- MODULE LiveParamsApa ----------------------------
-(* Unbounded version of the C08 single-observation clauses for Apalache: the instant (any day of 1970..2200, any second,  *)
+(* Unbounded version of the C08 single-observation clauses for Apalache: the instant (any day from 1970-01-02 to 2200, any second,  *)
 (* any microsecond), the age of an explicit start and the depth range over integers (SMT) instead of TLC's grid; the       *)
 (* period is drawn from a finite set and the reference is the 4 s one (a symbolic divisor makes the problem nonlinear and   *)
 (* Z3 does not return), the calendar starts today / month / year stay with TLC.  Inv: the implementation-shaped model      *)
@@ -23,7 +23,9 @@ VARIABLES
 Starts == {"x", "epoch", "now"}
 Init ==
     /\ \E dd \in Int, ss \in Int, uu \in Int :
-          /\ 0 <= dd /\ dd <= 84000 /\ 0 <= ss /\ ss < 86400 /\ 0 <= uu /\ uu < 1000000
+          \* from 1970-01-02: in the first minute after the epoch itself no `epoch` stream can be a minute old (Apalache finds
+          \* now = 1970-01-01T00:00:08.000001 when day 0 is admitted)
+          /\ 1 <= dd /\ dd <= 84000 /\ 0 <= ss /\ ss < 86400 /\ 0 <= uu /\ uu < 1000000
           /\ now = [d |-> dd, s |-> ss, u |-> uu]
     /\ start \in Starts
     /\ xk \in Int /\ xk >= 0 /\ xk <= now.d * 86400 + now.s        \* an explicit start is not later than now and not before 1970
